@@ -4,6 +4,7 @@ A task is a *unit*: one fuzzer / mutator object that processes a list of trees i
 coverage fuzzer carries state from one call to the next), so a unit is also what a replay re-runs."""
 import random
 import signal
+import sys
 
 from isla.derivation_tree import DerivationTree
 from isla.fuzzer import GrammarCoverageFuzzer, GrammarFuzzer
@@ -35,6 +36,19 @@ def _exc(ex):
 
 
 def run(task):
+    # units that exercise phase 1 of expand_tree (min_nonterminals > 0) can diverge (the tree grows until the
+    # interpreter's recursion limit is hit, quadratic time): a lower limit makes that outcome quick.  All
+    # trees of these units are far shallower than the limit.
+    old = sys.getrecursionlimit()
+    if task.get("reclimit"):
+        sys.setrecursionlimit(task["reclimit"])
+    try:
+        return _run(task)
+    finally:
+        sys.setrecursionlimit(old)
+
+
+def _run(task):
     g = pj.json_to_grammar(task["g"])
     steps = []
     seed = task["seed"]
